@@ -124,7 +124,10 @@ func (ti *TypeInfo) Enter(node ast.Node) {
 			ttype, _ = typeFromAST(*schema, node.TypeCondition)
 			ti.typeStack = append(ti.typeStack, ttype)
 		} else {
-			ti.typeStack = append(ti.typeStack, ti.Type())
+			// Without a type condition the fragment applies to the named
+			// type in scope, not to its list / non-null wrapper.
+			namedType, _ := GetNamed(ti.Type()).(Output)
+			ti.typeStack = append(ti.typeStack, namedType)
 		}
 	case *ast.FragmentDefinition:
 		typeConditionAST := node.TypeCondition
